@@ -1,26 +1,35 @@
 #!/bin/bash
 # Re-run every seeded change (must be detected, rc=1) and every benign refactoring (must stay silent, rc=0)
-# against the current machinery.  Usage: tools/all_seeds.sh [quick|thorough]
+# against the current machinery, under several values of VERIF_SEED.
+# Usage: tools/all_seeds.sh [quick|thorough] [seed ...]
 cd /verif
-TIER=${1:-quick}
+TIER=${1:-quick}; shift
+SEEDS=${@:-20261003 1 7}
 fail=0
 for d in seeded/C*; do
   id=$(basename $d)
-  out=$(tools/seedcheck.py $d --tier $TIER 2>&1)
-  rc=$(echo "$out" | grep -E "^--- " | sed 's/.*rc=//' | sort -u | tr '\n' ' ')
-  keys=$(echo "$out" | grep -E "^  C[0-9]+/" | sed 's/^  //; s/:.*//' | sort -u | tr '\n' ' ')
-  if echo "$rc" | grep -q 1; then echo "DETECTED $id rc=[$rc] $keys"; else echo "MISSED   $id rc=[$rc]"; fail=1; fi
+  prop=$(python3 -c "import json;m=json.load(open('$d/meta.json'));print(m.get('detected_by',{}).get('check') or m['property'])")
+  res=""
+  for s in $SEEDS; do
+    out=$(VERIF_SEED=$s tools/seedcheck.py $d --tier $TIER --prop $prop 2>&1)
+    rc=$(echo "$out" | grep -E "^--- " | sed 's/.*rc=//' | sort -u | tr '\n' ' ')
+    if echo "$rc" | grep -q 1; then res="$res D"; else res="$res MISS(seed=$s)"; fail=1; fi
+  done
+  echo "$id [$prop]$res"
 done
 for d in seeded/benign/B*; do
   id=$(basename $d)
   props=$(python3 -c "
-import json,sys
-m={'B08':'C08 C17','B14':'C14 C15','B15':'C15 C14','B15b':'C15 C14','B17':'C17 C08','B18':'C18 C19','B19':'C19 C18'}
+m={'B08':'C08 C17','B14':'C14 C15','B14b':'C14 C15','B15':'C15 C14','B15b':'C15 C14','B15c':'C15 C14','B17':'C17 C08','B18':'C18 C19','B19':'C19 C18'}
 print(m.get('$id','C08 C14 C15 C17 C18 C19'))")
   for p in $props; do
-    out=$(tools/seedcheck.py $d --tier $TIER --prop $p 2>&1)
-    rc=$(echo "$out" | grep -E "^--- " | sed 's/.*rc=//')
-    if [ "$rc" = "0" ]; then echo "SILENT   $id $p"; else echo "ALARM    $id $p rc=$rc $(echo "$out" | grep -E '^  C[0-9]+/' | head -2 | cut -c1-200)"; fail=1; fi
+    res=""
+    for s in $SEEDS; do
+      out=$(VERIF_SEED=$s tools/seedcheck.py $d --tier $TIER --prop $p 2>&1)
+      rc=$(echo "$out" | grep -E "^--- " | sed 's/.*rc=//')
+      if [ "$rc" = "0" ]; then res="$res silent"; else res="$res ALARM(seed=$s,rc=$rc)"; fail=1; fi
+    done
+    echo "$id [$p]$res"
   done
 done
 exit $fail
